@@ -1,9 +1,116 @@
-import StraxModel.Driver.Parse
+import StraxModel.Driver.C07
+import StraxModel.Model.Superrun
 namespace Strax.Driver
-open Strax
+open Strax Strax.Superrun
 
-/-- ops of property C14 (stub: no ops yet) -/
+namespace C14
+
+/-- `dt:allow:rechunk:target,…` -/
+def parseLevels (s : String) : Option (List Level) :=
+  (splitList s ",").mapM fun tok =>
+    match tok.splitOn ":" with
+    | [dt, a, r, t] => do pure ⟨dt, ← parseBool a, ← parseBool r, ← t.toNat?⟩
+    | _ => none
+
+/-- `rid:start,…` -/
+def parseDocs (s : String) : Option (List (String × Int)) :=
+  (splitList s ",").mapM fun tok =>
+    match tok.splitOn ":" with
+    | [rid, a] => do pure (rid, ← a.toInt?)
+    | _ => none
+
+def parseIds (s : String) : List String := splitList s ","
+
+/-- `start~stop~rows` -/
+def parseRawC (s : String) : Option RawC :=
+  match s.splitOn "~" with
+  | [a, b, rows] => do pure ⟨← a.toInt?, ← b.toInt?, ← parseRows rows⟩
+  | _ => none
+
+/-- `rid=chunk;chunk/rid=…` -/
+def parseSrc (s : String) : Option (List (String × List RawC)) :=
+  (splitList s "/").mapM fun tok =>
+    match tok.splitOn "=" with
+    | [rid, cs] => do pure (rid, ← (splitList cs ";").mapM parseRawC)
+    | _ => none
+
+/-- the concrete stand-in for the hash in the driver: an injective printing of (sorted spec, combining) -/
+def keyH (spec : List String) (combining : Bool) : String :=
+  ",".intercalate spec ++ (if combining then "+c" else "+n")
+
+def showIdsL (l : List String) : String := if l.isEmpty then "-" else ",".intercalate l
+
+/-- canonical order for a JSON dict of runs: by (start, end, id) -/
+def canonRuns (rs : Runs) : Runs :=
+  rs.mergeSort fun a b => decide (a.start < b.start) || (decide (a.start = b.start) &&
+    (decide (a.stop < b.stop) || (decide (a.stop = b.stop) && decide (a.id ≤ b.id))))
+
+/-- stored chunk metadata entry: `run_id|start|end|n|subruns` -/
+def showMeta (c : Chunk) : String :=
+  s!"{showStrOpt c.runId}|{c.start}|{c.stop}|{c.rows.length}|{showRunsOpt (c.subruns.map canonRuns)}"
+
+def showStoredLevels (w : World) (key : String) (store : Store) : String :=
+  " ".intercalate (w.levels.map fun lv =>
+    match store.lookup (key, lv.dataType) with
+    | none => s!"{lv.dataType}:-"
+    | some cs => s!"{lv.dataType}:" ++ (if cs.isEmpty then "()" else ";".intercalate (cs.map showMeta)))
+
+/-- the whole scenario of one correspondence case, see checks/props/c14.py -/
+def scenario (w : World) (docs : List (String × Int)) (data1 data2 : List String) (n : Nat)
+    (combining write : Bool) (premake : Option Nat) : Except Err String := do
+  let spec1 ← definedSpec docs data1
+  let store : Store := []
+  let store ← match premake with
+    | none => pure store
+    | some p => do
+      let (_, st) ← superGet keyH w spec1 store p false write
+      pure st
+  let (y1, store) ← superGet keyH w spec1 store n combining write
+  let key1 := superrunKey keyH w.superName spec1 combining
+  let m1 := showStoredLevels w key1 store
+  let (y2, store) ← superGet keyH w spec1 store n combining write
+  let stored1 := isStored keyH w spec1 store n combining
+  let spec2 ← definedSpec docs data2
+  let same := decide (superrunKey keyH w.superName spec2 combining = key1)
+  let stored2 := isStored keyH w spec2 store n combining
+  let (y3, store) ← superGet keyH w spec2 store n combining write
+  let stored3 := isStored keyH w spec1 store n combining
+  -- single-run results of every documented run (what the oracle concatenates)
+  let base ← docs.mapM fun (rid, _) => do
+    let cs ← subrunStored w rid n
+    pure s!"{rid}={showIds (cs.flatMap (·.rows))}"
+  pure (s!"spec={showIdsL spec1} # y1 {showChunks y1} # m1 {m1} # y2 {showChunks y2} # stored1={stored1} " ++
+    s!"# spec2={showIdsL spec2} samekey={same} stored2={stored2} # y3 {showIds (y3.flatMap (·.rows))} # stored3={stored3} # base {"/".intercalate base}")
+
+def parseNatOpt (s : String) : Option (Option Nat) := if s == "-" then some none else do pure (some (← s.toNat?))
+
+end C14
+open C14
+
+/-- ops of property C14 -/
 def handleC14 : List String → Option String
+  | ["c14.definerun", docs, data] => do
+    let docs ← parseDocs docs
+    pure <| showExcept (fun l => s!"passed={showIdsL l} stored={showIdsL (runDocSpec l)}") (defineRun docs (parseIds data))
+  | ["c14.samekey", s1, c1, s2, c2] => do
+    let c1 ← parseBool c1; let c2 ← parseBool c2
+    let same := decide (superrunKey keyH "_s" (parseIds s1) c1 = superrunKey keyH "_s" (parseIds s2) c2)
+    pure s!"ok {same}"
+  | "c14.iter" :: lv :: runId :: cs => do
+    let lvs ← parseLevels lv; let lv ← lvs.head?; let cs ← cs.mapM parseRawChunk
+    pure <| showExcept showChunks (rawChunksToChunks cs >>= pluginRun lv runId)
+  | ["c14.super", name, levels, n, combining, write, premake, docs, data1, data2, src] => do
+    let levels ← parseLevels levels; let n ← n.toNat?; let c ← parseBool combining; let wr ← parseBool write
+    let pm ← parseNatOpt premake; let docs ← parseDocs docs; let src ← parseSrc src
+    let w : World := ⟨Generated.getSplitsArgmin0, superName name, levels, src⟩
+    pure <| showExcept id (scenario w docs (parseIds data1) (parseIds data2) n c wr pm)
+  | "c14.concat" :: rest => handleC07 ("concat" :: rest)
+  | "c14.continuity" :: cs => do
+    let cs ← cs.mapM parseRawChunk
+    pure <| showExcept (fun _ => "-") (rawChunksToChunks cs >>= Superrun.continuityCheck)
+  | "c14.rechunk" :: rest => handleC07 ("rechunk" :: rest)
+  | "c14.csplit" :: rest => handleC07 ("csplit" :: rest)
+  | "c14.splitruns" :: rest => handleC07 ("splitruns" :: rest)
   | _ => none
 
 end Strax.Driver
